@@ -200,7 +200,7 @@ func cmdCheck(args []string) int {
 			return 2
 		}
 	}
-	timeout := 20 * time.Second
+	timeout := 30 * time.Second
 	if *tier == "thorough" {
 		timeout = 120 * time.Second
 	}
